@@ -55,7 +55,7 @@ func main() {
 
 	var wg sync.WaitGroup
 	nIn := 12
-	wd := time.Duration(c.Pick(4, 35)) * time.Minute
+	wd := time.Duration(c.Pick(8, 38)) * time.Minute // a quick worker needs ~15 s on an idle machine
 	sideDir := filepath.Join(c.Scratch, "side")
 	for k := 0; k < nIn; k++ {
 		wg.Add(1)
